@@ -1163,3 +1163,162 @@ pub fn rich_operand_programs() -> Vec<(Prog, String)> {
     }
     out
 }
+
+// ---------------------------------------------------------------------------
+// Axis S: SELECT CASE whose tests are expressions (variables, arithmetic, FUNCTION calls, a FUNCTION that runs a
+// SELECT CASE of its own), values of another numeric type than the subject (fractions against an INTEGER subject,
+// 40000 against an INTEGER subject) — for subjects of every numeric type over a run of values.
+// ---------------------------------------------------------------------------
+
+pub fn case_expression_programs() -> Vec<(Prog, String)> {
+    let low = || var("LOW%");
+    let span = || var("SPAN%");
+    let frac = |t: &str| Expr::Num(t.to_string());
+    // (label, tests of the first CASE)
+    let tests: Vec<(&str, Vec<CaseExpr>)> = vec![
+        ("LOW% TO LOW% + SPAN%", vec![CaseExpr::Range(low(), bin(BinOp::Add, low(), span()))]),
+        ("LOW% + 1 TO SPAN% * 2", vec![CaseExpr::Range(bin(BinOp::Add, low(), num(1)), bin(BinOp::Mul, span(), num(2)))]),
+        ("Idf%(LOW%) TO Idf%(LOW%) + SPAN%", vec![CaseExpr::Range(call("Idf%", vec![low()]), bin(BinOp::Add, call("Idf%", vec![low()]), span()))]),
+        ("LOW% - 1 TO LOW% + Band%(SPAN%)", vec![CaseExpr::Range(bin(BinOp::Sub, low(), num(1)), bin(BinOp::Add, low(), call("Band%", vec![span()])))]),
+        ("2.5 TO 3.5", vec![CaseExpr::Range(frac("2.5"), frac("3.5"))]),
+        ("LOW% TO 40000", vec![CaseExpr::Range(low(), num(40000))]),
+        ("-LOW% TO LOW%", vec![CaseExpr::Range(Expr::Neg(Box::new(low())), low())]),
+        ("IS >= LOW% + SPAN%", vec![CaseExpr::Is(BinOp::Ge, bin(BinOp::Add, low(), span()))]),
+        ("IS < 2.5", vec![CaseExpr::Is(BinOp::Lt, frac("2.5"))]),
+        ("IS = SPAN% * 2", vec![CaseExpr::Is(BinOp::Eq, bin(BinOp::Mul, span(), num(2)))]),
+        ("IS <> LOW%", vec![CaseExpr::Is(BinOp::Ne, low())]),
+        ("IS > 40000, IS < LOW% - 1", vec![CaseExpr::Is(BinOp::Gt, num(40000)), CaseExpr::Is(BinOp::Lt, bin(BinOp::Sub, low(), num(1)))]),
+        ("LOW% + SPAN%", vec![CaseExpr::Simple(bin(BinOp::Add, low(), span()))]),
+        ("SPAN% * 2 + 1, LOW% - 2, 1.5", vec![CaseExpr::Simple(bin(BinOp::Add, bin(BinOp::Mul, span(), num(2)), num(1))), CaseExpr::Simple(bin(BinOp::Sub, low(), num(2))), CaseExpr::Simple(frac("1.5"))]),
+        ("4.5, 40000, Band%(LOW%)", vec![CaseExpr::Simple(frac("4.5")), CaseExpr::Simple(num(40000)), CaseExpr::Simple(call("Band%", vec![low()]))]),
+        ("5 TO 6, LOW%, IS > SPAN% + 3", vec![CaseExpr::Range(num(5), num(6)), CaseExpr::Simple(low()), CaseExpr::Is(BinOp::Gt, bin(BinOp::Add, span(), num(3)))]),
+    ];
+    // (label, subject, how the subject variable is set from the loop counter)
+    let subjects: Vec<(&str, Expr, Expr)> = vec![
+        ("INTEGER variable", var("XI%"), var("K%")),
+        ("LONG variable", var("XL&"), var("K%")),
+        ("SINGLE variable in steps of one half", var("XS!"), bin(BinOp::Div, var("K%"), num(2))),
+        ("DOUBLE variable in steps of one half", var("XD#"), bin(BinOp::Div, var("K%"), num(2))),
+        ("expression XI% + 1", bin(BinOp::Add, var("XI%"), num(1)), var("K%")),
+    ];
+    let mut out = vec![];
+    for (tl, tests1) in &tests {
+        for (sl, subject, set) in &subjects {
+            let mut b = B::new();
+            let idf_body = vec![b.assign(var("Idf%"), var("X%"))];
+            // Band%(n) = n classified by a SELECT CASE with ranges of its own: 0 for n < 1, n for 1 TO 3, 9 above
+            let lo_arm = vec![b.assign(var("Band%"), var("N%"))];
+            let hi_arm = vec![b.assign(var("Band%"), num(9))];
+            let band_body = vec![
+                b.assign(var("Band%"), num(0)),
+                b.s(K::Select { subject: var("N%"), cases: vec![(vec![CaseExpr::Range(num(1), bin(BinOp::Add, num(1), num(2)))], lo_arm), (vec![CaseExpr::Is(BinOp::Gt, num(3))], hi_arm)], els: None }),
+            ];
+            let id1 = b.id();
+            let id2 = b.id();
+            let subs = vec![
+                SubDef { id: id1, name: "Idf%".into(), is_function: true, params: vec![Param { name: "X%".into(), ty: None, is_array: false }], body: idf_body, is_static: false },
+                SubDef { id: id2, name: "Band%".into(), is_function: true, params: vec![Param { name: "N%".into(), ty: None, is_array: false }], body: band_body, is_static: false },
+            ];
+            let target = match subject {
+                Expr::Var(_) => subject.clone(),
+                _ => var("XI%"),
+            };
+            let first = vec![b.print(vec![st("first"), var("K%")])];
+            let second = vec![b.print(vec![st("second"), var("K%")])];
+            let other = vec![b.print(vec![st("else"), var("K%")])];
+            let select = b.s(K::Select {
+                subject: subject.clone(),
+                cases: vec![(tests1.clone(), first), (vec![CaseExpr::Range(bin(BinOp::Sub, low(), num(2)), bin(BinOp::Add, bin(BinOp::Mul, low(), span()), num(1)))], second)],
+                els: Some(other),
+            });
+            let body = vec![b.assign(target, set.clone()), select];
+            let main = vec![
+                b.assign(low(), num(2)),
+                b.assign(span(), num(2)),
+                b.s(K::For { var: var("K%"), from: num(0), to: num(12), step: None, body, next_var: false }),
+                b.print(vec![st("done")]),
+            ];
+            out.push((Prog { main, subs, declare: true, ..Default::default() }, format!("CASE {} / subject: {}", tl, sl)));
+        }
+    }
+    out
+}
+
+// ---------------------------------------------------------------------------
+// Axis E: AND / OR evaluate both operands. A condition whose left operand already decides the truth value and whose
+// right operand fails (division by zero, subscript out of range, overflow, a FUNCTION that fails) ends the program
+// with that error at the statement holding the condition — in every kind of condition, and in plain expressions.
+// ---------------------------------------------------------------------------
+
+pub const FAILING_OPERANDS: [&str; 4] = ["division by zero", "subscript out of range", "overflow", "a FUNCTION that divides by zero"];
+pub const CONDITION_PLACES: [&str; 9] = ["IF", "ELSEIF", "single-line IF", "WHILE", "DO WHILE", "DO UNTIL", "LOOP WHILE", "LOOP UNTIL", "assignment"];
+
+pub fn failing_condition_programs() -> Vec<(Prog, String)> {
+    let mut out = vec![];
+    for (oi, ol) in FAILING_OPERANDS.iter().enumerate() {
+        for op in [BinOp::And, BinOp::Or] {
+            for failing_side in 0..2 {
+                for (pi, pl) in CONDITION_PLACES.iter().enumerate() {
+                    let mut b = B::new();
+                    let body_fn = vec![b.assign(var("Quot%"), bin(BinOp::Div, num(10), var("N%")))];
+                    let id = b.id();
+                    let subs = vec![SubDef { id, name: "Quot%".into(), is_function: true, params: vec![Param { name: "N%".into(), ty: None, is_array: false }], body: body_fn, is_static: false }];
+                    // H% = 0 makes the other operand decide: `H% <> 0` is false (AND is false whatever follows),
+                    // `H% = 0` is true (OR is true whatever follows)
+                    let decided = if op == BinOp::And { bin(BinOp::Ne, var("H%"), num(0)) } else { bin(BinOp::Eq, var("H%"), num(0)) };
+                    let failing = match oi {
+                        0 => bin(BinOp::Gt, bin(BinOp::Div, var("D%"), var("H%")), num(50)),
+                        1 => bin(BinOp::Eq, Expr::Index("AR%".into(), vec![bin(BinOp::Add, var("H%"), num(9))]), num(0)),
+                        2 => bin(BinOp::Gt, bin(BinOp::Add, var("BIG%"), var("D%")), num(0)),
+                        _ => bin(BinOp::Gt, call("Quot%", vec![var("H%")]), num(1)),
+                    };
+                    let cond = if failing_side == 1 { bin(op, decided, failing) } else { bin(op, failing, decided) };
+                    let mut main = vec![
+                        b.s(K::Dim { shared: false, redim: false, vars: vec![DimVar { name: "AR%".into(), ty: None, dims: vec![(Some(num(1)), num(3))] }] }),
+                        b.assign(var("H%"), num(0)),
+                        b.assign(var("D%"), num(100)),
+                        b.assign(var("BIG%"), num(32767)),
+                        b.print(vec![st("start")]),
+                    ];
+                    let say = |b: &mut B, t: &str| b.print(vec![st(t)]);
+                    match pi {
+                        0 => {
+                            let t = vec![say(&mut b, "then")];
+                            let e = vec![say(&mut b, "else")];
+                            main.push(b.s(K::If { arms: vec![(cond, t)], els: Some(e), single_line: false }));
+                        }
+                        1 => {
+                            let t = vec![say(&mut b, "then")];
+                            let m = vec![say(&mut b, "elseif")];
+                            let e = vec![say(&mut b, "else")];
+                            main.push(b.s(K::If { arms: vec![(bin(BinOp::Eq, var("H%"), num(5)), t), (cond, m)], els: Some(e), single_line: false }));
+                        }
+                        2 => {
+                            let t = vec![say(&mut b, "then")];
+                            let e = vec![say(&mut b, "else")];
+                            main.push(b.s(K::If { arms: vec![(cond, t)], els: Some(e), single_line: true }));
+                        }
+                        8 => {
+                            main.push(b.assign(var("R%"), cond));
+                            main.push(b.print(vec![var("R%")]));
+                        }
+                        _ => {
+                            let body = vec![say(&mut b, "body"), b.assign(var("H%"), num(1))];
+                            let k = match pi {
+                                3 => K::While(cond, body),
+                                4 => K::Do(DoKind::WhileTop, cond, body),
+                                5 => K::Do(DoKind::UntilTop, cond, body),
+                                6 => K::Do(DoKind::WhileBottom, cond, body),
+                                _ => K::Do(DoKind::UntilBottom, cond, body),
+                            };
+                            main.push(b.s(k));
+                        }
+                    }
+                    main.push(b.print(vec![st("not reached")]));
+                    out.push((Prog { main, subs, declare: true, ..Default::default() }, format!("{:?} with {} on the {} in {}", op, ol, if failing_side == 1 { "right" } else { "left" }, pl)));
+                }
+            }
+        }
+    }
+    out
+}
